@@ -51,6 +51,16 @@ def outcomeStr : Outcome → String
 structure DState where
   ctl : Ctl := ⟨[], false⟩
   st : Option CState := none
+  /-- C02 monitor: per group, the time at which the implementation was last seen to get a cloud
+      increase accepted in this controller lifetime. -/
+  armed : List (String × Int) := []
+
+/-- Did this observed journal get a cloud increase accepted? -/
+def acceptedRaise (j : Journal) : Bool :=
+  j.any (fun e => e.ok && (match e.call with | .setDesired .. => true | _ => false)) ||
+  (j.any (fun e => e.ok && (match e.call with | .createFleet _ => true | _ => false)) &&
+   !j.any (fun e => match e.call with | .terminateInstances _ => true | _ => false) &&
+   ((j.filter Spec.isAttachEntry).getLast?.map (·.ok)) == some true)
 
 def monitors (c : Spec.Ctx) (j : Journal) (fatalHere : Bool) : List String :=
   ((Spec.C19.scanBad c j fatalHere).map (fun t => "C19|" ++ t)) ++
@@ -123,6 +133,14 @@ def handleScan (ds : DState) (sc : ScanCase) : DState × Json :=
       let mine := (paired.filter (fun t => t.1 == c.name)).map (fun t => t.2)
       (Spec.C15.bad (sc.nowReal / 1000000000) c.taintEffect none mine).map (fun n => "C15:" ++ c.name ++ ":" ++ n))
     let mons := mons ++ mon15
+    -- C02 on the observed journals
+    let mon02 : List String := sc.obs.recs.flatMap (fun ob =>
+      match ds.armed.lookup ob.name, ds.ctl.cfgs.find? (fun c => c.name == ob.name) with
+      | some t0, some c => if sc.nowReal - t0 < c.coolNs && !ob.j.isEmpty then ["C02:" ++ ob.name ++ ":activity-in-cooldown"] else []
+      | _, _ => [])
+    let mons := mons ++ mon02
+    let armed' : List (String × Int) := sc.obs.recs.foldl (fun acc ob =>
+      if acceptedRaise ob.j then (ob.name, sc.nowReal) :: acc.filter (fun p => p.1 != ob.name) else acc) ds.armed
     let diffs := dOutcome ++ dPre ++ dRecs ++ dStates
     let branches := out.recs.map (fun m => m.name ++ ":" ++ m.branch)
     let base : List (String × Json) :=
@@ -143,7 +161,7 @@ def handleScan (ds : DState) (sc : ScanCase) : DState × Json :=
                             forceTaintTracker := os.forceTaintTracker, minEff := os.minEff, maxEff := os.maxEff }
       | none => s
     let st' : CState := if dStates.isEmpty then out.st else { out.st with groups := out.st.groups.map (fun (n, s) => (n, resync n s)) }
-    ({ ds with st := some st' }, Json.mkObj (base ++ detail))
+    ({ ds with st := some st', armed := armed' }, Json.mkObj (base ++ detail))
 
 def shiftState (d : Int) (st : CState) : CState :=
   { st with groups := st.groups.map (fun (n, s) =>
@@ -164,13 +182,13 @@ def handleLine (ds : DState) (line : String) : DState × Json :=
         let r := newController o 0 ic.ctl
         let diffs := (if r.val.isSome == ic.obs.ok then [] else ["init:ok"]) ++ (if r.j == ic.obs.j then [] else ["init:journal"])
         let detail := if diffs.isEmpty then [] else [("model", Json.mkObj [("ok", toJson r.val.isSome), ("j", toJson r.j)])]
-        ({ ctl := ic.ctl, st := r.val }, Json.mkObj ([("diffs", toJson diffs), ("mon", toJson ([] : List String)), ("branches", toJson ([] : List String))] ++ detail))
+        ({ ctl := ic.ctl, st := r.val, armed := [] }, Json.mkObj ([("diffs", toJson diffs), ("mon", toJson ([] : List String)), ("branches", toJson ([] : List String))] ++ detail))
     | .ok "begin" => ({}, Json.mkObj [("skip", toJson true)])
     | .ok "abandon" => ({}, Json.mkObj [("skip", toJson true)])
     | .ok "shift" =>
       match j.getObjValAs? Int "d" with
       | .error e => (ds, Json.mkObj [("error", toJson e)])
-      | .ok d => ({ ds with st := ds.st.map (shiftState d) }, Json.mkObj [("diffs", toJson ([] : List String)), ("mon", toJson ([] : List String)), ("branches", toJson ([] : List String))])
+      | .ok d => ({ ds with st := ds.st.map (shiftState d), armed := ds.armed.map (fun p => (p.1, p.2 - d)) }, Json.mkObj [("diffs", toJson ([] : List String)), ("mon", toJson ([] : List String)), ("branches", toJson ([] : List String))])
     | .ok "scan" =>
       match fromJson? j with
       | .error e => (ds, Json.mkObj [("error", toJson ("scan: " ++ e))])
